@@ -215,7 +215,11 @@ def run(F, R, tier):
         g = F.fn(C + fn)
         if R.anchor(C + fn, g):
             tl = [n for n, k in top_level_calls(H.body_of(g))]
-            ok = tl[:1] == ["enter_scope"] and tl.count("enter_scope") == 1 and tl.count("leave_scope") == 1
+            # nothing is compiled, emitted or defined before the scope is entered (plain reads of the node's fields may precede)
+            pre = tl[:tl.index("enter_scope")] if "enter_scope" in tl else tl
+            busy = [n for n in pre if str(n).startswith(("compile", "emit", "define", "load_", "save_", "add_constant"))]
+            ok = "enter_scope" in tl and not busy and tl.count("enter_scope") == 1 and tl.count("leave_scope") == 1 and \
+                tl.index("enter_scope") < tl.index("leave_scope")
             # no enter/leave nested in conditionals
             allc = [H.last(c.get("callee") or "") for c in H.walk(H.body_of(g)) if c.get("k") in ("call", "mcall")]
             ok = ok and allc.count("enter_scope") == 1 and allc.count("leave_scope") == 1
